@@ -197,6 +197,19 @@ def observe_synset(w, lid, k, ref, V, tag, g, obs):
             gc2 = sorted((node_of(y, lid) for y in v2), key=repr) if st2 == 'ok' else v2
             if gc2 != sorted(_reach(ref, nd), key=repr):
                 bad('placeholder:closure', f'{lid}-{k}: placeholder {nd}.closure() = {gc2!r} expected {sorted(_reach(ref, nd), key=repr)}')
+        # relation_paths(end=t): exactly the simple paths from x that stop at t, for every placeholder t
+        # (and every stored synset) on a path
+        ends = dict(inf)
+        for pth in v:
+            for t in pth:
+                ends.setdefault(node_of(t, lid), t)
+        for nd, t in sorted(ends.items()):
+            st2, v2 = budget.call(lambda: list(x.relation_paths('hypernym', 'instance_hypernym', end=t)), budget=4000)
+            gp2 = sorted({tuple(node_of(y, lid) for y in p) for p in v2}, key=repr) if st2 == 'ok' else v2
+            exp2 = sorted({p[:i + 1] for p in ref.paths(('L', k)) for i, y in enumerate(p) if y == nd
+                           and nd not in p[:i]}, key=repr)
+            if gp2 != exp2:
+                bad('relation_paths(end):differs', f'{lid}-{k}.relation_paths(end={nd}) = {gp2!r} expected {exp2}')
     # closure over own + borrowed relations: every reachable synset (placeholders by ILI) exactly once
     st, v = budget.call(lambda: list(x.closure('hypernym')), budget=4000)
     gc = sorted((node_of(y, lid) for y in v), key=repr) if st == 'ok' else v
